@@ -338,6 +338,17 @@ func TestVerifAuth(t *testing.T) {
 		raw := append([]byte(nil), m.Raw...)
 		dm, _ := decodeCopy(raw, 0)
 		tw.emit(map[string]interface{}{"k": "fpadd", "pre": ints(pre), "post": ints(raw), "chk": checkVerdict(stun.Fingerprint, dm)})
+		// other read-only operations on the same Message must not disturb the fingerprint check: a failed and a
+		// successful integrity check, getters, a second fingerprint check
+		dm2, ok2 := decodeCopy(raw, []int{0, 24}[i%2])
+		if ok2 {
+			_ = checkVerdict(stun.MessageIntegrity(randBytes(r, 9)), dm2)
+			var sw stun.Software
+			_ = sw.GetFrom(dm2)
+			_ = checkVerdict(stun.Fingerprint, dm2)
+			tw.emit(map[string]interface{}{"k": "fpchk", "raw": ints(raw), "dec": 1, "chk": checkVerdict(stun.Fingerprint, dm2), "after": "failed-integrity-check"})
+			tw.emit(map[string]interface{}{"k": "fpchk", "raw": ints(dm2.Raw), "dec": 1, "chk": checkVerdict(stun.Fingerprint, dm2), "after": "bytes-as-they-are-now"})
+		}
 		flips := [][3]int{}
 		for bit := 0; bit < len(raw)*8; bit++ {
 			v := flipBit(raw, bit)
